@@ -39,10 +39,10 @@ META = {
 # ---- L1 tables -------------------------------------------------------------
 def py_atoms(tier):
     if tier == "quick":
-        pv, pfv = ["3", "3.8", "3.10"], ["3.8", "3.8.2", "3.10"]
+        pv, pfv = ["3", "3.8", "3.10"], ["3.8", "3.8.2", "3.10", "3.9a1"]
         lists = ["3.8, 3.10", "2.7,3.10"]
     else:
-        pv, pfv = ["3", "2", "3.8", "3.9", "3.10", "2.7", "3.0"], ["3.8", "3.9", "3.8.0", "3.8.2", "3.9.0", "3.10.1", "2.7.18", "3.10"]
+        pv, pfv = ["3", "2", "3.8", "3.9", "3.10", "2.7", "3.0"], ["3.8", "3.9", "3.8.0", "3.8.2", "3.9.0", "3.10.1", "2.7.18", "3.10", "3.9a1", "3.10.0rc1"]
         lists = ["3.8", "3.8,3.9", "3.8, 3.10", "2.7,3.10", "3.10, 3.11, 3.12"]
     out = []
     for var, vals in (("python_version", pv), ("python_full_version", pfv)):
@@ -51,10 +51,10 @@ def py_atoms(tier):
                 if op == "~=" and "." not in v:
                     continue
                 out.append({"var": var, "op": op, "val": v, "rev": False, "style": 0})
-                if op != "~=":
+                if op != "~=" and v.replace(".", "").isdigit():
                     out.append({"var": var, "op": op, "val": v, "rev": True, "style": 0})
         for v in vals:
-            if v.count(".") <= 1:
+            if v.count(".") <= 1 and v.replace(".", "").isdigit():
                 out.append({"var": var, "op": "==", "val": v + ".*", "rev": False, "style": 0})
                 out.append({"var": var, "op": "!=", "val": v + ".*", "rev": False, "style": 0})
     for lst in lists:
